@@ -9,6 +9,18 @@ HT = os.path.join(LC.SP, 'Hyperedge.tla')
 
 
 def scenario_ops(sc, rnd):
+    if sc.get('reg') == 1:
+        # registration by terminal list: shapes and pins only, then the list
+        base = scenario_ops(dict(sc, reg=0), rnd)
+        ops = [o for o in base if o[0] in (1, 2)]
+        t = sc['terms']
+        ops.append([16, len(t)] + [v for x in t for v in (x[1], x[2])] + [0] * (2 * (5 - len(t))))
+        ops.append([13])
+        if sc['follow'] == 1:
+            ops += [[6, 1, 2, 0], [13]]
+        elif sc['follow'] == 2:
+            ops += [[13]]
+        return ops
     if sc.get('geo') == 1:
         rects = {1: (37, 15, 43, 25, 4, 2), 2: (47, 35, 53, 45, 0, 1), 3: (7, 5, 13, 15, 4, 2), 4: (7, 45, 13, 55, 0, 1), 5: (57, 15, 63, 25, 4, 2)}
         ops = []
@@ -55,7 +67,7 @@ def main(tier):
     scs = json.load(open(gf))
     rnd = random.Random(V.seed())
     if quick:
-        scs = rnd.sample([x for x in scs if x['geo'] == 0], 250) + rnd.sample([x for x in scs if x['geo'] == 1], 100)
+        scs = rnd.sample([x for x in scs if x['geo'] == 0 and x['reg'] == 0], 250) + rnd.sample([x for x in scs if x['geo'] == 1 and x['reg'] == 0], 100) + rnd.sample([x for x in scs if x['reg'] == 1], 60)
     hists = [scenario_ops(sc, rnd) for sc in scs]
     scen = os.path.join(d, 'scen.txt')
     cfgs = []
@@ -119,10 +131,10 @@ def main(tier):
     ev.cov['distinct_nontrivial'] = nontriv
     ev.cov['traces_validated_against_impl'] = len(execs)
     ev.cov['rule'] = ('scenarios = TLC-enumerated: every set of 3..4 terminals from a catalogue (pin classes of two shapes, free points) x 3 junction positions x improvement options x follow-up '
-                      '(none, shape move, empty transaction); snapshots after registerHyperedgeForRerouting + processTransaction; non-trivial = improvement moved/added/deleted something')
+                      '(none, shape move, empty transaction); snapshots after registerHyperedgeForRerouting (junction or terminal list) + processTransaction; non-trivial = improvement moved/added/deleted something')
     if recs:
         ev.sample({'scenario': scs[meta[0]], 'conns': [{'src': c['src'], 'dst': c['dst']} for c in recs[0]['conns']]})
-    ev.assumptions = ['one hyperedge per scene, registration by junction', 'each terminal used by one connector']
+    ev.assumptions = ['one hyperedge per scene; registration by root junction (reg=0) or by terminal list (reg=1)', 'each terminal used by one connector']
     rc = vd.finish()
     ev.write()
     return rc
